@@ -416,8 +416,15 @@ pub fn run_c10(tier: &str, seed: u64, model: &Model, corpus_lines: Vec<String>, 
     // whole-record mode on a record of more than 2^20 bases: a window of a million m-mers (expected line from the closed form
     // that w0_single_window proves; see the driver)
     {
+        // the smallest m-mer (poly-A) is planted once, either in the last bases (it enters the window after a million m-mers)
+        // or among the first (it is the first thing a window that slides too early would lose)
         let l = (1usize << 20) + rng.range(2_000, 60_000) as usize;
-        let recs = vec![gen::clean_seq(&mut rng, 90, gen::Flavor::Uniform), gen::clean_seq(&mut rng, l, gen::Flavor::Uniform)];
+        let mut big = gen::clean_seq(&mut rng, l, gen::Flavor::Uniform);
+        let at = if rng.chance(1, 2) { l - 400 } else { 120 };
+        for b in big[at..at + 20].iter_mut() {
+            *b = b'A';
+        }
+        let recs = vec![gen::clean_seq(&mut rng, 90, gen::Flavor::Uniform), big];
         let c = MinCase { recs, w: 0, m: 16, threads: 2, sched: "free".into() };
         run_one(&c, "megabase-whole-record", &mut rep, &mut traces, &mut branching);
     }
